@@ -107,7 +107,7 @@ func propC20(c *Ctx) {
 			}
 			// keyed by the source reference's name
 			kroot, chain := lm.chain(lk.Index)
-			keyOK := chainIs(chain, fName) && lm.isSourceRefElem(kroot)
+			keyOK := chainIs(chain, fName) && (lm.isSourceRefElem(kroot) || lm.isSourceRefOfSameCollection(kroot))
 			c.Check("R20.1", fmt.Sprintf("loadTasks/lookup#%d", nLk), lk.Pos(), good && keyOK, "look-up by the source reference's Name; a missing entry is a start-up error, not a silently missing task")
 		})
 		// one look-up may serve both (a map of {config, client} records); where each of the two comes
@@ -159,8 +159,8 @@ func propC20(c *Ctx) {
 			}
 		}
 		fromLookup := false
-		if e, ok := scRoot.(*ssa.Extract); ok {
-			if lk, ok := e.Tuple.(*ssa.Lookup); ok {
+		{
+			if lk := lookupOf(scRoot); lk != nil {
 				mp := lm.val(lk.X)
 				if call, k := resultOf(mp); call != nil && k == 0 && len(scPrefix) == 0 {
 					if f := staticCallee(call); f != nil && f.Name() == "AllSourcesByName" {
@@ -201,11 +201,9 @@ func propC20(c *Ctx) {
 			good := false
 			// the client is the looked-up value, or a field of it (one map of {config, client} records)
 			droot, _ := lm.deep(lm.val(o.Call.Args[0]))
-			if e, ok := droot.(*ssa.Extract); ok {
-				if lk, ok := e.Tuple.(*ssa.Lookup); ok {
-					root, chain := lm.chain(lk.Index)
-					good = chainIs(chain, fName) && lm.isSourceRefElem(root)
-				}
+			if lk := lookupOf(droot); lk != nil {
+				root, chain := lm.chain(lk.Index)
+				good = chainIs(chain, fName) && lm.isSourceRefElem(root)
 			}
 			c.Check("R20.1", "loadTasks/WithSource", o.Pos(), good, "the source client is looked up by the same reference name")
 		} else {
@@ -834,4 +832,40 @@ func recordsOfAllSources(lm *loadTasksModel, mk *ssa.MakeMap, fld, fName *types.
 		}
 	})
 	return good && n > 0
+}
+
+// lookupOf: v is the value of a map look-up (m[k], or the first result of v, ok := m[k])
+func lookupOf(v ssa.Value) *ssa.Lookup {
+	switch x := v.(type) {
+	case *ssa.Lookup:
+		if !x.CommaOk {
+			return x
+		}
+	case *ssa.Extract:
+		if lk, ok := x.Tuple.(*ssa.Lookup); ok && x.Index == 0 {
+			return lk
+		}
+	}
+	return nil
+}
+
+// isSourceRefOfSameCollection: v is an element of Y.Sources where Y is an element of the very
+// collection the integration handed to the task is taken from (a validating pass over the same
+// integrations in a loop of its own).
+func (m *loadTasksModel) isSourceRefOfSameCollection(v ssa.Value) bool {
+	s, idx, ok := elemOf(v)
+	if !ok || !isInduction(idx) {
+		return false
+	}
+	fSources := m.c.W.Field("shovel/config", "Integration", "Sources")
+	root, chain := m.chain(s)
+	if !chainIs(chain, fSources) || m.igVal == nil {
+		return false
+	}
+	cs, _, ok1 := elemOf(root)
+	is, _, ok2 := elemOf(m.igVal)
+	if !ok1 || !ok2 {
+		return false
+	}
+	return sameVar(m.val(cs), m.val(is)) || m.val(cs) == m.val(is)
 }
